@@ -73,8 +73,28 @@ Definition map_site_allow : list (string * string * justification) := [
   ("kyaml/yaml/internal/k8sgen/pkg/util/sets", "String.UnsortedList", JSetOrBool)
 ].
 
+(* The justification of a function covers the map ranges that were READ when it was written, identified by their
+   ordinal among the map ranges of the function: ordinal 0 unless listed here. A new range added to an allow-listed
+   function (seeded C01-h: a second loop in openapi.AddDefinitions, over the accumulated definitions instead of the
+   incoming ones) has a new ordinal and breaks Gen_mapranges_ok. *)
+Definition map_site_ords : list (string * string * list nat) := [
+  ("api/krusty", "GetBuiltinPluginNames", [0; 1]);
+  ("kyaml/kio", "LocalPackageReadWriter.Write", [0; 1]);
+  ("kyaml/kio", "LocalPackageWriter.Write", [0; 1; 2]);
+  ("kyaml/kio", "TreeWriter.getFields", [0; 1]);
+  ("kyaml/kio/kioutil", "ConfirmInternalAnnotationUnchanged", [0; 1]);
+  ("kyaml/sets", "String.SymmetricDifference", [0; 1])
+].
+
+Definition allowed_ords (s : map_site) : list nat :=
+  match find (fun e => String.eqb (fst (fst e)) (ms_pkg s) && String.eqb (snd (fst e)) (ms_fn s)) map_site_ords with
+  | Some e => snd e
+  | None => [0]
+  end.
+
 Definition allowed_site (s : map_site) : bool :=
-  existsb (fun e => String.eqb (fst (fst e)) (ms_pkg s) && String.eqb (snd (fst e)) (ms_fn s)) map_site_allow.
+  existsb (fun e => String.eqb (fst (fst e)) (ms_pkg s) && String.eqb (snd (fst e)) (ms_fn s)) map_site_allow &&
+  existsb (Nat.eqb (ms_ord s)) (allowed_ords s).
 
 Definition site_ok (s : map_site) : bool :=
   match ms_class s with
